@@ -536,6 +536,18 @@ def schemaPanics (f : File) : Bool :=
     | .array _ (some w) _ _ (some n) => !usizeOk (n * w)
     | _ => false
 
+/-- `Size::add` / `Size::mul` / `8 * size` in `Schema::new` work on `usize`: the (overflow-checked)
+    compiler panics as soon as a static size leaves `[0, 2^64)`.  All operands are sums and products
+    of naturals, so some intermediate result overflows exactly when a final static quantity does. -/
+def sizeBig : Size → Bool
+  | .static n => !usizeOk n
+  | _ => false
+
+def schemaOverflows (sc : List DeclSchema) : Bool :=
+  sc.any fun ds =>
+    sizeBig ds.sizes.declSize || sizeBig ds.sizes.parentSize || sizeBig ds.sizes.payloadSize || sizeBig ds.sizes.total ||
+    ds.fields.any fun fs => sizeBig fs.fieldSize || (match fs.padded with | some n => !usizeOk n | none => false)
+
 def checkFieldOffsets (f : File) (sc : List DeclSchema) : Res Unit :=
   let r := (f.decls.zip sc).foldl (fun (acc : List Diag × Option APanic) (d, ds) =>
     let (a, _, p) := (d.fields.zip ds.fields).foldl (fun (st : List Diag × Nat × Option APanic) (fl, fs) =>
@@ -605,6 +617,7 @@ def analyze (f : File) : Res File :=
               else match Schema.build f with
                 | none => .panic .schemaLookup
                 | some sc =>
+                  if schemaOverflows sc then .panic .schemaOverflow else
                   match checkFieldOffsets f sc with
                   | .diags ds => .diags ds
                   | .panic p => .panic p
